@@ -707,7 +707,8 @@ def gen_programs(ctx, fault, sim_n, fuel_sim, fuel_mc=None, mc_timeout=300):
 def run_gen_prop(ctx):
     q = ctx.quick()
     fault = ctx.prop == "C14"
-    progs, stats = gen_programs(ctx, fault, sim_n=(6000 if q else 120000), fuel_sim=[6, 10, 16] if q else [6, 10, 16, 24],
+    progs, stats = gen_programs(ctx, fault, sim_n=((30000 if fault else 8000) if q else 300000),
+                                fuel_sim=[4, 6, 10, 16] if q else [4, 6, 10, 16, 24],
                                 fuel_mc=None)
     seen = set()
     for j in progs:
